@@ -27,7 +27,7 @@ INVARIANTS TypeOK NoAcceptAfterStart ShortCompletes BoundedReturn
 PROPERTIES NoNewWorkAfterStart
 CHECK_DEADLOCK FALSE
 """
-ACTIONS = ["Accept", "Finish", "ShutdownStart", "Drain", "Deadline", "Return", "Tick"]
+ACTIONS = ["AcceptAny", "FinishAny", "ShutdownStart", "DrainAny", "DeadlineAny", "Return", "Tick"]
 TICK = 0.150
 WAIT_TICKS = 4
 
